@@ -293,6 +293,9 @@ func verifPair(p int) (*Container, *verifSet, *Container, *verifSet) {
 			if verifBound("near", 0) != 0 {
 				verifNearBase = sb.wpos[0]
 			}
+		} else if verifBound("near", 0) == 2 {
+			// no bitmap operand, but the kernel converts to a bitmap and scans it
+			verifNearBase = []int{0, bitmapN - 2}[verifChoice("near.base", 2)]
 		}
 		a, sa = verifMkContainer("a", ta, ma, mr, nw, 0)
 		if tb != 2 {
